@@ -142,11 +142,27 @@ pub fn do_op<P: Pat>(
         }
     }
     out.push((g1, call));
-    out.push((g2, json!({"k":"ret","t":t,"a":a,"r":r,"uid":uid,"s":s,"v":v,"h":h})));
+    out.push((g2, json!({"k":"ret","t":t,"a":a,"r":r,"uid":uid,"s":s,"v":v,"h":h,"f":0})));
 }
 
-/// Quiescent observation of the domain.
-pub fn observe<P: Pat>(kind: &str, name: &ServiceName, config: &Config, nodes_alive: bool, panics: u64) -> Value {
+/// (node index, directory name of the node) of the live nodes of `actors`
+pub fn node_ids<P: Pat>(actors: &[Actor<P>]) -> Vec<(usize, String)> {
+    actors.iter().map(|a| (a.nd, a.node.id().value().to_string())).collect()
+}
+
+/// Quiescent observation of the domain.  `nodes` = the live nodes (index, directory name): `tg` lists the
+/// indices of those that carry a service tag (a `*.service_tag` file in their details directory; every
+/// domain of this driver has ONE service name).  `dirs` = number of node details directories in the domain.
+pub fn observe<P: Pat>(
+    kind: &str,
+    name: &ServiceName,
+    config: &Config,
+    nodes_alive: bool,
+    panics: u64,
+    nodes: &[(usize, String)],
+) -> Value {
+    let tg = util::tagged_nodes(config, nodes);
+    let dirs = util::node_dirs(config);
     let exist = match does_exist::<P>(name, config) {
         Ok(b) => b as i64,
         Err(_) => -1,
@@ -157,7 +173,7 @@ pub fn observe<P: Pat>(kind: &str, name: &ServiceName, config: &Config, nodes_al
     };
     let files = if nodes_alive { util::service_files(config) } else { util::root_files(config) };
     let shm = util::shm_objects(config, !nodes_alive).len();
-    json!({"k":kind,"exist":exist,"listed":listed,"files":files,"shm":shm,"panics":panics})
+    json!({"k":kind,"exist":exist,"listed":listed,"files":files,"shm":shm,"panics":panics,"tg":tg,"dirs":dirs,"crashed":0})
 }
 
 /// Sorts the events of a run by stamp, replaces the incarnation ids by small indices (order of
